@@ -222,19 +222,19 @@ def init_options(net, **kwargs):
         - **max_iter_therm** (int): 10 - If the thermal simulation is terminated after a certain amount of \
                                iterations, this is the number of iterations.
 
-        - **tol_p** (float): 1e-4 - The relative tolerance for the pressure. A result is accepted \
+        - **tol_p** (float): 1e-5 - The relative tolerance for the pressure. A result is accepted \
                                     if the relative error is smaller than this factor.
 
-        - **tol_m** (float): 1e-4 - The relative tolerance for the velocity. A result is accepted \
+        - **tol_m** (float): 1e-5 - The relative tolerance for the velocity. A result is accepted \
                                     if the relative error is smaller than this factor.
 
-        - **tol_T** (float): 1e-4 - The relative tolerance for the temperature. A result is \
+        - **tol_T** (float): 1e-3 - The relative tolerance for the temperature. A result is \
                                     accepted if the relative error is smaller than this factor.
 
         - **tol_res** (float): 1e-3 - The relative tolerance for the residual. A result is accepted\
                                       if the relative error is smaller than this factor.
 
-        - **ambient_temperature** (float): 293.0 - The assumed ambient temperature for the\
+        - **ambient_temperature** (float): 293.15 - The assumed ambient temperature for the\
                 calculation of the barometric formula
 
         - **friction_model** (str): "nikuradse" - The friction model that shall be used to identify\
